@@ -74,6 +74,36 @@ def eleven(sid):
     return s.done()
 
 
+def live(sid, rnd, nx):
+    """calls that are illegal or final while the extension's poll is parked in a running environment:
+    the answer of the parked poll at the next invocation shows whether the agent's state was kept"""
+    exts = ["e%d" % (i + 1) for i in range(nx)]
+    subs = {e: rnd.choice([["INVOKE"], ["INVOKE", "SHUTDOWN"]]) for e in exts}
+    ints = {"i1": ["INVOKE"]} if rnd.random() < 0.5 else {}
+    s = Scn(sid, ext=exts, timeout_ms=300, onTerm={e: "exit" for e in exts})
+    s.meta(family="extapi-live")
+    tags = s.boot(subs, ints)
+    s.round(tags, subs, ints)
+    parties = ["ext:" + e for e in exts] + ["int:" + i for i in ints]
+    for _ in range(rnd.randrange(1, 4)):
+        who = rnd.choice(parties)
+        a = rnd.random()
+        if a < 0.35:
+            s.call(who, "exterror", which="exit", errType="Extension.Bye")
+        elif a < 0.55:
+            s.call(who, "exterror", which="init", errType="Extension.Late")
+        elif a < 0.75:
+            s.register(who, ["INVOKE"])
+        elif a < 0.9:
+            s.call(who, "next", async_=True)      # a second poll of the same extension while the first is parked
+            s.sleep(2)
+        else:
+            s.call(who, "exterror", which="exit", errType="")
+    it = s.invoke(size=3, seed=5)
+    s.wait(it)
+    return s.done()
+
+
 def limit(sid, nx):
     """registrations up to and beyond the limit of ten extensions (external + internal)"""
     names = (["e%d" % i for i in range(1, 10)] + ["f1", "f2"])[:nx]
@@ -98,6 +128,8 @@ def scenarios(ctx):
     n = 60 if ctx.quick else 600
     out = [one("c13-%03d" % i, rnd, 1 + i % 3, rnd.randrange(6, 24)) for i in range(n)]
     out.append(eleven("c13-eleven"))
+    for i in range(12 if ctx.quick else 150):
+        out.append(live("c13-live%03d" % i, rnd, 1 + i % 2))
     for nx in (0, 1, 5, 9, 10):
         out.append(limit("c13-limit%d" % nx, nx))
     return out
